@@ -86,11 +86,15 @@ type Ctx struct {
 	// clock says, so that a slow machine still covers every unit's default schedule (race builds on a freshly restored
 	// sandbox have been seen to run two orders of magnitude slower than on a warm one)
 	AlwaysBound0 bool
-	Out        *ShardOut
-	Replay     *ReplayReq
-	OnlyUnit   string // run only units whose name has this prefix (debugging)
-	ByUnit     bool   // distribute whole units over the shards instead of splitting each unit's tree
-	unitCtr    int
+	// MaxExecs caps the executions of each deviation bound above 0 of the following units (0 = none): a unit that a normal
+	// machine finishes well inside its time budget does the same work on a slower one, so the evidence does not vary with
+	// the machine; the cap is reported like any other cap (exhaustive=false)
+	MaxExecs int
+	Out      *ShardOut
+	Replay   *ReplayReq
+	OnlyUnit string // run only units whose name has this prefix (debugging)
+	ByUnit   bool   // distribute whole units over the shards instead of splitting each unit's tree
+	unitCtr  int
 }
 
 func (c *Ctx) Quick() bool { return c.Tier != "thorough" }
@@ -140,6 +144,11 @@ func (c *Ctx) skip(name string) bool {
 		return c.Replay.Unit != name
 	}
 	return c.OnlyUnit != "" && !strings.HasPrefix(name, c.OnlyUnit)
+}
+
+// Mine reports whether the k-th unit from here (1 = the next one) falls to this shard when whole units are distributed.
+func (c *Ctx) Mine(k int) bool {
+	return !c.ByUnit || c.Of <= 1 || (c.unitCtr+k-1)%c.Of == c.Shard
 }
 
 // NoCache disables state caching for the next Explore calls (sequential harnesses do not need it).
@@ -193,7 +202,11 @@ func (c *Ctx) Explore(name string, params map[string]any, bound int, run explore
 		if c.AlwaysBound0 && b == 0 {
 			dl = time.Time{}
 		}
-		opt := explore.Options{Bound: b, Deadline: dl, Shard: shard, Of: of, KeepGoing: true, MaxViol: 6, Cache: !NoCache,
+		maxExecs := 0
+		if b > 0 {
+			maxExecs = c.MaxExecs
+		}
+		opt := explore.Options{Bound: b, Deadline: dl, MaxExecs: maxExecs, Shard: shard, Of: of, KeepGoing: true, MaxViol: 6, Cache: !NoCache,
 			OnExec: func(e *explore.Exec, v explore.Verdict) {
 				if e.Cost() == b { // executions below the bound were counted in an earlier iteration
 					distinct++
